@@ -606,9 +606,9 @@ Proof. unfold st_ok, locs_ok, init_state. cbn. constructor; [apply Psp0|construc
 Lemma walk_schema_ok body : sres_ok body (walk_schema body).
 Proof. unfold walk_schema. apply do_body_ok; [apply incl_refl|apply init_ok]. Qed.
 
-Theorem j5s_walk_contract R body w : j5s_walk R body = Ok w -> walk_out_ok' body w = true.
+Theorem j5s_walk_gen_contract mkR body w : j5s_walk_gen mkR body = Ok w -> walk_out_ok' body w = true.
 Proof.
-  unfold j5s_walk. pose proof (walk_schema_ok body) as H.
+  unfold j5s_walk_gen. pose proof (walk_schema_ok body) as H.
   destruct (walk_schema body) as [s|sp c|x|why]; cbn [sres_ok] in H; try discriminate.
   - destruct (validate s) as [[|v vs]|why]; try discriminate; intro E; injection E as <-; cbn [walk_out_ok'].
     + apply andb_true_intro. split; [|apply abs_decls_wf].
@@ -618,6 +618,9 @@ Proof.
       apply in_map_iff in Hsp. destruct Hsp as [v' [<- _]]. apply violation_span_ok. exact H.
   - intro E. injection E as <-. cbn [walk_out_ok' negb andb forallb]. rewrite andb_true_r. apply Psp_span_from. exact H.
 Qed.
+
+Theorem j5s_walk_contract R body w : j5s_walk R body = Ok w -> walk_out_ok' body w = true.
+Proof. apply j5s_walk_gen_contract. Qed.
 
 (* ------------------------------------------------------------------ no panic *)
 Fixpoint stmt_refs_ok (st : stmt) : bool :=
@@ -659,16 +662,20 @@ Proof.
 Qed.
 
 (* the walker instance returns: a walk_out, or the explicit "outside the model" *)
-Theorem j5s_walk_returns R body : body_refs_ok body = true ->
-  (exists w, j5s_walk R body = Ok w) \/ j5s_walk R body = Err E_UNMODELLED.
+Theorem j5s_walk_gen_returns mkR body : body_refs_ok body = true ->
+  (exists w, j5s_walk_gen mkR body = Ok w) \/ j5s_walk_gen mkR body = Err E_UNMODELLED.
 Proof.
-  intro Hb. unfold j5s_walk. pose proof (do_body_no_panic body root_scope init_state) as Hp.
+  intro Hb. unfold j5s_walk_gen. pose proof (do_body_no_panic body root_scope init_state) as Hp.
   unfold walk_schema. destruct (do_body root_scope body init_state) as [s|sp c|x|w].
   - destruct (validate s) as [[|v vs]|w]; [left; eexists; reflexivity|left; eexists; reflexivity|right; reflexivity].
   - left. eexists. reflexivity.
   - exfalso. exact (Hp x Hb eq_refl).
   - right. reflexivity.
 Qed.
+
+Theorem j5s_walk_returns R body : body_refs_ok body = true ->
+  (exists w, j5s_walk R body = Ok w) \/ j5s_walk R body = Err E_UNMODELLED.
+Proof. apply j5s_walk_gen_returns. Qed.
 
 (* ------------------------------------------------------------------ the parser never hands on an empty block type *)
 (* (parser.NewReference would have panicked first: the acc = [] case of pop_reference_loop is BclParser's WPanic) *)
@@ -784,24 +791,24 @@ Qed.
 
 (* ------------------------------------------------------------------ the front end with the walker model in it *)
 Section Instance.
-  Variable R : list N -> list N -> ref_out.
+  Variable mkR : loc -> list (path * sval) -> list N -> list N -> ref_out.
 
   (* for every byte string: parse diagnostics, walker / validation errors, conversion errors, or a converted file —
      or the explicit "outside the model" (the classes listed in model/CmpbWalk.v); never a panic, never out of fuel *)
   Theorem j5s_front_end_total ff input :
-    (exists out, front_end (j5s_walk R) ff input = Ok out) \/ front_end (j5s_walk R) ff input = Err E_UNMODELLED.
+    (exists out, front_end (j5s_walk_gen mkR) ff input = Ok out) \/ front_end (j5s_walk_gen mkR) ff input = Err E_UNMODELLED.
   Proof.
     unfold front_end, parse_file.
     destruct (parse_runes_total ff (utf8_decode input)) as [p Hp]. rewrite Hp.
     destruct (pdiags p) as [|d ds] eqn:Ed; [|left; eexists; reflexivity].
     destruct (parse_runes_tree_or_diags ff _ p Hp) as [[[body Hb] _]|Hne]; [|rewrite Ed in Hne; contradiction].
-    rewrite Hb. destruct (j5s_walk_returns R body (parse_runes_refs_ok ff _ p body Hp Hb)) as [[w Hw]|He]; [|right; rewrite He; reflexivity].
+    rewrite Hb. destruct (j5s_walk_gen_returns mkR body (parse_runes_refs_ok ff _ p body Hp Hb)) as [[w Hw]|He]; [|right; rewrite He; reflexivity].
     rewrite Hw. left. destruct w as [es|t lf]; [eexists; reflexivity|].
     rewrite file_never_panics. destruct (conv_errors t lf); eexists; reflexivity.
   Qed.
 
   Theorem j5s_front_end_errors_positioned ff input st es :
-    front_end (j5s_walk R) ff input = Ok (FEErrors st es) ->
+    front_end (j5s_walk_gen mkR) ff input = Ok (FEErrors st es) ->
     es <> [] /\ Forall (span_inside (utf8_decode input)) es.
   Proof.
     unfold front_end, parse_file.
@@ -810,8 +817,8 @@ Section Instance.
     destruct (pdiags p) as [|d ds] eqn:Ed.
     - destruct (ptree p) as [body|] eqn:Hb; [|discriminate].
       specialize (Hn body eq_refl).
-      destruct (j5s_walk R body) as [w|c|s|] eqn:Hw; try discriminate.
-      pose proof (j5s_walk_contract R body w Hw) as Hc. destruct w as [es'|t lf]; cbn [walk_out_ok'] in Hc.
+      destruct (j5s_walk_gen mkR body) as [w|c|s|] eqn:Hw; try discriminate.
+      pose proof (j5s_walk_gen_contract mkR body w Hw) as Hc. destruct w as [es'|t lf]; cbn [walk_out_ok'] in Hc.
       + intro H. injection H as <- <-. apply andb_prop in Hc. destruct Hc as [Hne Hall]. split.
         * destruct es'; [discriminate|discriminate].
         * apply Forall_forall. intros sp Hsp. rewrite forallb_forall in Hall.
@@ -831,7 +838,7 @@ Section Instance.
   Qed.
 
   Corollary j5s_front_end_errors_inside_bytes ff input st es :
-    front_end (j5s_walk R) ff input = Ok (FEErrors st es) ->
+    front_end (j5s_walk_gen mkR) ff input = Ok (FEErrors st es) ->
     Forall (fun sp => inside_bytes input (fst sp) /\ inside_bytes input (snd sp)) es.
   Proof.
     intro H. destruct (j5s_front_end_errors_positioned ff input st es H) as [_ Hall].
@@ -841,8 +848,8 @@ Section Instance.
   (* the first sentence of C07 for one file, with the real walker's model in place of the abstract parameter *)
   Definition j5s_front_end_statement : Prop :=
     forall ff input,
-      front_end (j5s_walk R) ff input = Err E_UNMODELLED \/
-      exists out, front_end (j5s_walk R) ff input = Ok out /\
+      front_end (j5s_walk_gen mkR) ff input = Err E_UNMODELLED \/
+      exists out, front_end (j5s_walk_gen mkR) ff input = Ok out /\
         match out with
         | FEErrors _ es => es <> [] /\ Forall (fun sp => inside_bytes input (fst sp) /\ inside_bytes input (snd sp)) es
         | FEConverted v _ => v = VOk
@@ -853,6 +860,6 @@ Section Instance.
     intros ff input. destruct (j5s_front_end_total ff input) as [[out Hout]|He]; [right|left; exact He].
     exists out. split; [exact Hout|]. destruct out as [st es|v lf].
     - split; [exact (proj1 (j5s_front_end_errors_positioned ff input st es Hout))|exact (j5s_front_end_errors_inside_bytes ff input st es Hout)].
-    - exact (proj1 (front_end_descriptors (j5s_walk R) ff input v lf Hout)).
+    - exact (proj1 (front_end_descriptors (j5s_walk_gen mkR) ff input v lf Hout)).
   Qed.
 End Instance.
